@@ -293,10 +293,12 @@ class Spec:
             for p in list(self.procs):
                 self.procs.remove(p)
                 self.detach_events(p, None, out)
-            if not self.enabled and self.pending:
+            if self.pending:
+                # (also with dispatching enabled again, when a raising callback cut the release short and
+                # left postponed callbacks in the queue: the same wipe of the queue)
                 self.findings.append(('clear-while-disabled-loses-postponed',
-                                      f'clear() while dispatching is disabled lost {len(self.pending)} '
-                                      f'postponed callbacks: {self.pending[:4]}'))
+                                      f'clear() with {len(self.pending)} postponed callbacks pending lost '
+                                      f'them: {self.pending[:4]}'))
                 self.pending = []
             self.counter = 1
             self.registered = set()
